@@ -52,12 +52,17 @@ package bloomsearch
 //@ extern crc32.Checksum
 //@ pure
 
+// zeroTime(t): t is the zero time.Time. The wall clock never reads year 1
+// (assumed of time.Now).
+//@ specfun zeroTime(t time.Time) bool
 //@ extern time.Now
 //@ pure
+//@ ensures !zeroTime(result)
 //@ extern time.Since
 //@ pure
 //@ extern time.Time.IsZero
 //@ pure
+//@ ensures result == zeroTime(t)
 
 //@ extern errors.Join
 //@ pure
@@ -271,6 +276,7 @@ package bloomsearch
 //     tombstoned (C06);
 //   - with the flush context already done: no store call at all (C08).
 //@ func (*BloomSearchEngine).handleFlush
+//@ appends fileMetadata.DataBlocks
 //@ props C05 C06 C08
 //@ requires b != nil
 //@ modifies heaps, $store, $answers
@@ -341,6 +347,10 @@ package bloomsearch
 // The actor's own answers must use the flush context, not the engine context
 // that Stop cancels (precondition, checked at the worker's call sites).
 //@ func (*BloomSearchEngine).processIngestRequest
+//@ appends *doneChans
+// the per-partition row lists of the grouping loop are built from nothing but
+// this call's own appends (append-shared: no in-place write into req.rows)
+//@ loop 0 invariant forall key str :: arr(partitionedRows[key]) == 0 || arr(partitionedRows[key]) < old($alloc)
 //@ props C05 C07 C06
 // C06 batch atomicity: every row is serialized and size-checked before anything
 // is buffered, so when a batch is rejected for an unmarshalable or oversize row
@@ -366,6 +376,12 @@ package bloomsearch
 // and byte counters are below their limits (so the actor can never sit on a full
 // buffer waiting for something else to flush it).
 //@ ensures [C10,C09] ghost.flushTriggers == old(ghost.flushTriggers) && len(*doneChans) == old(len(*doneChans)) + 1 ==> *bufferedRowCount < b.config.MaxBufferedRows && *bufferedBytes < b.config.MaxBufferedBytes
+// C10 time bound, sequential part: the buffering clock starts with the first
+// retained batch and is never restarted by a later one (the ticker and the
+// in-request check both measure MaxBufferedTime from it), and a retained batch
+// always leaves a running clock behind.
+//@ ensures [C10] ghost.flushTriggers == old(ghost.flushTriggers) && !zeroTime(old(*bufferStartTime)) ==> *bufferStartTime == old(*bufferStartTime)
+//@ ensures [C10] ghost.flushTriggers == old(ghost.flushTriggers) && len(*doneChans) == old(len(*doneChans)) + 1 ==> !zeroTime(*bufferStartTime)
 //@ loop 1 invariant ghost.attempts == old(ghost.attempts) && ghost.roundAttempts == old(ghost.roundAttempts) && ghost.flushTriggers == old(ghost.flushTriggers) && *doneChans == old(*doneChans) && (forall k :: 0 <= k && k < len(*doneChans) ==> (*doneChans)[k] == old((*doneChans)[k])) && forall c :: sentnil(c) == old(sentnil(c))
 //@ loop 2 invariant ghost.attempts == old(ghost.attempts) && ghost.roundAttempts == old(ghost.roundAttempts) && ghost.flushTriggers == old(ghost.flushTriggers) && *doneChans == old(*doneChans) && (forall k :: 0 <= k && k < len(*doneChans) ==> (*doneChans)[k] == old((*doneChans)[k])) && forall c :: sentnil(c) == old(sentnil(c))
 //@ loop 3 invariant ghost.attempts == old(ghost.attempts) && ghost.roundAttempts == old(ghost.roundAttempts) && ghost.flushTriggers == old(ghost.flushTriggers) && *doneChans == old(*doneChans) && (forall k :: 0 <= k && k < len(*doneChans) ==> (*doneChans)[k] == old((*doneChans)[k])) && forall c :: sentnil(c) == old(sentnil(c))
@@ -541,6 +557,7 @@ package bloomsearch
 //@ ensures old(len(b.batch)) > 0 ==> ghost.delivers == old(ghost.delivers) + 1
 
 //@ func (*Results).recordBlockStats
+//@ appends r.blockStats
 //@ props C23
 //@ requires r != nil
 //@ entry ghost.statsRecorded = ghost.statsRecorded + 1
@@ -636,6 +653,7 @@ package bloomsearch
 // put stores a healthy handle for reuse, or closes it when nobody can ask for it
 // anymore; exactly one of the two, and never while holding the lock.
 //@ func (*fileHandlePool).put
+//@ appends entry.idle
 //@ props C21
 //@ requires p != nil
 //@ entry ghost.hPut = ghost.hPut + 1
@@ -692,6 +710,7 @@ package bloomsearch
 
 // add may only be called for the row that was just verified by matchRowBytes.
 //@ func (*rowBatcher).add
+//@ appends b.batch
 //@ props C02
 //@ requires b != nil && b.results != nil && b.slot != nil
 //@ requires [C02] ghost.matchedOK
@@ -705,6 +724,7 @@ package bloomsearch
 // after a successful read; reads happen while the worker's slot is held; a row
 // is batched only after matchRowBytes accepted it.
 //@ func (*BloomSearchEngine).processDataBlock
+//@ appends r.errs
 //@ props C02 C21 C22 C23
 //@ requires b != nil && r != nil && slot != nil && handles != nil && rowMatcher != nil
 //@ requires [C22] slot.held
@@ -788,6 +808,7 @@ package bloomsearch
 // for a file that still has blocks after the prefilter and, when the query has
 // bloom conditions, whose file-level filters evaluated true.
 //@ func (*BloomSearchEngine).Query$closure(sendWithContext[fileFilterJob])
+//@ appends r.errs
 //@ props C24 C01
 //@ modifies all
 //@ at call sendWithContext[fileFilterJob]#1 assert [C24] len(maybeFile.Metadata.DataBlocks) > 0 && (hasBloomConditions ==> ghost.bloomVerdict)
@@ -798,6 +819,8 @@ package bloomsearch
 // entries report zero rows and bytes; the handle taken for the pass is handed
 // back exactly once; region reads happen while the slot is held.
 //@ func (*BloomSearchEngine).evaluateBlockFilters
+//@ appends r.errs
+//@ appends dst
 //@ props C24 C23 C21 C22
 //@ requires b != nil && r != nil && slot != nil && handles != nil
 //@ requires slot.ctx == r.ctx
@@ -816,6 +839,139 @@ package bloomsearch
 //@ ensures [C21] ghost.hAcquired - old(ghost.hAcquired) == (ghost.hPut - old(ghost.hPut)) + (ghost.hDiscarded - old(ghost.hDiscarded)) && ghost.hAcquired <= old(ghost.hAcquired) + 1
 
 // ---------------------------------------------------------------------------
+// query.go — expression constructors and builders (C25)
+//
+// ev is an arbitrary, fixed valuation of expression nodes ("this node evaluates
+// true"). Flattening a same-type child with no condition replaces the child by
+// its children; the contract says this changes neither "all nodes true" (AND)
+// nor "some node true" (OR), for every valuation — including the edge cases the
+// code has: a same-type child WITH a condition is kept as it is, an empty child
+// contributes nothing to AND and nothing to OR.
+// ---------------------------------------------------------------------------
+
+//@ specfun ev(x BloomExpression) bool
+//@ pred bflat(x BloomExpression, t BloomExpressionType) = x.ExpressionType == t && x.Condition == nil
+//@ pred ballOf(x BloomExpression, t BloomExpressionType) = bflat(x, t) ? (forall ch in x.Children :: ev(ch)) : ev(x)
+//@ pred banyOf(x BloomExpression, t BloomExpressionType) = bflat(x, t) ? (exists ch in x.Children :: ev(ch)) : ev(x)
+
+//@ func flattenExpressions
+//@   heapfacts
+//@ props C25
+//@ loop 0 invariant -1 <= $index && $index < len(expressions)
+//@ loop 0 invariant (forall f in flattened :: ev(f)) ==> (forall x in expressions[:$index + 1] :: ballOf(x, expressionType))
+//@ loop 0 invariant (forall x in expressions[:$index + 1] :: ballOf(x, expressionType)) ==> (forall f in flattened :: ev(f))
+//@ loop 0 invariant (exists f in flattened :: ev(f)) ==> (exists x in expressions[:$index + 1] :: banyOf(x, expressionType))
+//@ loop 0 invariant (exists x in expressions[:$index + 1] :: banyOf(x, expressionType)) ==> (exists f in flattened :: ev(f))
+//@ ensures (forall f in result :: ev(f)) <==> (forall x in expressions :: ballOf(x, expressionType))
+//@ ensures (exists f in result :: ev(f)) <==> (exists x in expressions :: banyOf(x, expressionType))
+
+// And / Or: the node's children are the flattened operands, so "all children
+// true" (resp. "some child true") is exactly the nested combination written.
+//@ func And
+//@   heapfacts
+//@ props C25
+//@ ensures result.ExpressionType == BloomExpressionAnd && result.Condition == nil
+//@ ensures (forall c in result.Children :: ev(c)) <==> (forall x in expressions :: ballOf(x, BloomExpressionAnd))
+//@ func Or
+//@   heapfacts
+//@ props C25
+//@ ensures result.ExpressionType == BloomExpressionOr && result.Condition == nil
+//@ ensures (exists c in result.Children :: ev(c)) <==> (exists x in expressions :: banyOf(x, BloomExpressionOr))
+
+// The same for prefilter and regex trees.
+//@ specfun pev(x PrefilterExpression) bool
+//@ pred pflat(x PrefilterExpression, t PrefilterExpressionType) = x.ExpressionType == t && x.Condition == nil
+//@ pred pallOf(x PrefilterExpression, t PrefilterExpressionType) = pflat(x, t) ? (forall ch in x.Children :: pev(ch)) : pev(x)
+//@ pred panyOf(x PrefilterExpression, t PrefilterExpressionType) = pflat(x, t) ? (exists ch in x.Children :: pev(ch)) : pev(x)
+//@ func flattenPrefilterExpressions
+//@   heapfacts
+//@ props C25
+//@ loop 0 invariant -1 <= $index && $index < len(expressions)
+//@ loop 0 invariant (forall f in flattened :: pev(f)) ==> (forall x in expressions[:$index + 1] :: pallOf(x, expressionType))
+//@ loop 0 invariant (forall x in expressions[:$index + 1] :: pallOf(x, expressionType)) ==> (forall f in flattened :: pev(f))
+//@ loop 0 invariant (exists f in flattened :: pev(f)) ==> (exists x in expressions[:$index + 1] :: panyOf(x, expressionType))
+//@ loop 0 invariant (exists x in expressions[:$index + 1] :: panyOf(x, expressionType)) ==> (exists f in flattened :: pev(f))
+//@ ensures (forall f in result :: pev(f)) <==> (forall x in expressions :: pallOf(x, expressionType))
+//@ ensures (exists f in result :: pev(f)) <==> (exists x in expressions :: panyOf(x, expressionType))
+//@ func PrefilterAnd
+//@   heapfacts
+//@ props C25
+//@ ensures result.ExpressionType == PrefilterExpressionAnd && result.Condition == nil
+//@ ensures (forall c in result.Children :: pev(c)) <==> (forall x in expressions :: pallOf(x, PrefilterExpressionAnd))
+//@ func PrefilterOr
+//@   heapfacts
+//@ props C25
+//@ ensures result.ExpressionType == PrefilterExpressionOr && result.Condition == nil
+//@ ensures (exists c in result.Children :: pev(c)) <==> (exists x in expressions :: panyOf(x, PrefilterExpressionOr))
+
+//@ specfun rev(x RegexExpression) bool
+//@ pred rflat(x RegexExpression, t RegexExpressionType) = x.ExpressionType == t && x.Condition == nil
+//@ pred rallOf(x RegexExpression, t RegexExpressionType) = rflat(x, t) ? (forall ch in x.Children :: rev(ch)) : rev(x)
+//@ pred ranyOf(x RegexExpression, t RegexExpressionType) = rflat(x, t) ? (exists ch in x.Children :: rev(ch)) : rev(x)
+//@ func flattenRegexExpressions
+//@   heapfacts
+//@ props C25
+//@ loop 0 invariant -1 <= $index && $index < len(expressions)
+//@ loop 0 invariant (forall f in flattened :: rev(f)) ==> (forall x in expressions[:$index + 1] :: rallOf(x, expressionType))
+//@ loop 0 invariant (forall x in expressions[:$index + 1] :: rallOf(x, expressionType)) ==> (forall f in flattened :: rev(f))
+//@ loop 0 invariant (exists f in flattened :: rev(f)) ==> (exists x in expressions[:$index + 1] :: ranyOf(x, expressionType))
+//@ loop 0 invariant (exists x in expressions[:$index + 1] :: ranyOf(x, expressionType)) ==> (exists f in flattened :: rev(f))
+//@ ensures (forall f in result :: rev(f)) <==> (forall x in expressions :: rallOf(x, expressionType))
+//@ ensures (exists f in result :: rev(f)) <==> (exists x in expressions :: ranyOf(x, expressionType))
+//@ func RegexAnd
+//@   heapfacts
+//@ props C25
+//@ ensures result.ExpressionType == RegexExpressionAnd && result.Condition == nil
+//@ ensures (forall c in result.Children :: rev(c)) <==> (forall x in expressions :: rallOf(x, RegexExpressionAnd))
+//@ func RegexOr
+//@   heapfacts
+//@ props C25
+//@ ensures result.ExpressionType == RegexExpressionOr && result.Condition == nil
+//@ ensures (exists c in result.Children :: rev(c)) <==> (exists x in expressions :: ranyOf(x, RegexExpressionOr))
+
+// Builder: Match/MatchRegex set the expression and mark it explicit; everything
+// chained afterwards is ANDed onto it; without an explicit expression Build
+// produces the AND of everything added; MatchPrefilter sets the prefilter.
+//@ func (*QueryBuilder).where
+//@   heapfacts
+//@ props C25
+//@ requires b != nil && b.query != nil && b.query.Bloom != nil
+//@ modifies b.bloomExplicitSet, b.implicitBloomAnd, b.query.Bloom.Expression, heap(BloomExpression)
+//@ ensures result == b && b.bloomExplicitSet && len(b.implicitBloomAnd) == 0
+//@ ensures b.query.Bloom.Expression != nil && *b.query.Bloom.Expression == expression
+
+//@ func (*QueryBuilder).addBloomExpression
+//@ appends b.implicitBloomAnd
+//@   heapfacts
+//@ props C25
+//@ requires b != nil && b.query != nil && b.query.Bloom != nil
+//@ modifies b.implicitBloomAnd, b.query.Bloom.Expression, heap(BloomExpression)
+//@ ensures b.bloomExplicitSet == old(b.bloomExplicitSet)
+//@ ensures !old(b.bloomExplicitSet) ==> len(b.implicitBloomAnd) == old(len(b.implicitBloomAnd)) + 1 && b.implicitBloomAnd[len(b.implicitBloomAnd) - 1] == expression && b.query.Bloom.Expression == old(b.query.Bloom.Expression)
+//@ ensures !old(b.bloomExplicitSet) ==> forall k :: 0 <= k && k < old(len(b.implicitBloomAnd)) ==> b.implicitBloomAnd[k] == old(b.implicitBloomAnd[k])
+//@ ensures old(b.bloomExplicitSet) && old(b.query.Bloom.Expression) == nil ==> b.query.Bloom.Expression != nil && *b.query.Bloom.Expression == expression
+//@ ensures old(b.bloomExplicitSet) && old(b.query.Bloom.Expression) != nil ==> b.query.Bloom.Expression != nil && b.query.Bloom.Expression.ExpressionType == BloomExpressionAnd && b.query.Bloom.Expression.Condition == nil
+
+// Build: without an explicit expression, the query's bloom expression is the AND
+// of everything that was added, in the sense of And's contract.
+//@ func (*QueryBuilder).Build
+//@   heapfacts
+//@ props C25
+//@ requires b != nil && b.query != nil && b.query.Bloom != nil && b.query.Regex != nil
+//@ modifies b.query.Bloom.Expression, b.query.Regex.Expression, heap(BloomExpression), heap(RegexExpression)
+//@ ensures result == b.query
+//@ ensures b.bloomExplicitSet || len(b.implicitBloomAnd) == 0 ==> b.query.Bloom.Expression == old(b.query.Bloom.Expression)
+//@ ensures !b.bloomExplicitSet && len(b.implicitBloomAnd) > 0 ==> b.query.Bloom.Expression != nil && b.query.Bloom.Expression.ExpressionType == BloomExpressionAnd && b.query.Bloom.Expression.Condition == nil
+//@ ensures !b.bloomExplicitSet && len(b.implicitBloomAnd) > 0 ==> ((forall c in b.query.Bloom.Expression.Children :: ev(c)) <==> (forall x in b.implicitBloomAnd :: ballOf(x, BloomExpressionAnd)))
+
+//@ func (*QueryBuilder).MatchPrefilter
+//@   heapfacts
+//@ props C25
+//@ requires b != nil && b.query != nil && b.query.Prefilter != nil
+//@ modifies b.query.Prefilter.Expression, heap(PrefilterExpression)
+//@ ensures result == b && b.query.Prefilter.Expression != nil && *b.query.Prefilter.Expression == expression
+
+// ---------------------------------------------------------------------------
 // merge.go — commit protocol (C13)
 // ---------------------------------------------------------------------------
 
@@ -824,7 +980,7 @@ package bloomsearch
 //@ func (*BloomSearchEngine).Merge
 //@ props C13
 //@ requires b != nil
-//@ modifies heaps, $store, ghost.mutexLocks, ghost.mutexUnlocks
+//@ modifies heaps, $store, ghost.mutexLocks, ghost.mutexUnlocks, ghost.handleCloses, ghost.unsafeViews
 //@ ensures ghost.mutexLocks <= old(ghost.mutexLocks) + 1
 //@ ensures ghost.mutexLocks - old(ghost.mutexLocks) == ghost.mutexUnlocks - old(ghost.mutexUnlocks)
 //@ ensures ghost.mutexLocks == old(ghost.mutexLocks) ==> result1 == ErrMergeInProgress && result0 == nil
@@ -836,7 +992,7 @@ package bloomsearch
 //@ func (*BloomSearchEngine).executeMergeGroup
 //@ props C13
 //@ requires b != nil
-//@ modifies heaps, $store
+//@ modifies heaps, $store, ghost.handleCloses, ghost.unsafeViews
 //@ loop 3 invariant ghost.creates == old(ghost.creates) + 1 && ghost.created == old(ghost.created) + 1
 //@ loop 3 invariant ghost.closeCalls == old(ghost.closeCalls) && ghost.closeOK == old(ghost.closeOK) && ghost.aborts == old(ghost.aborts)
 //@ loop 3 invariant ghost.updates == old(ghost.updates) && ghost.updateOK == old(ghost.updateOK) && ghost.tombstones == old(ghost.tombstones)
@@ -855,7 +1011,7 @@ package bloomsearch
 //@ func (*BloomSearchEngine).merge
 //@ props C13
 //@ requires b != nil
-//@ modifies heaps, $store
+//@ modifies heaps, $store, ghost.handleCloses, ghost.unsafeViews
 //@ loop 8 invariant -1 <= $index && ghost.updates == old(ghost.updates) && ghost.updateOK == old(ghost.updateOK) && ghost.tombstones == old(ghost.tombstones)
 //@ loop 8 invariant ghost.created == old(ghost.created) + $index + 1 && ghost.creates == old(ghost.creates) + $index + 1 && ghost.closeOK == old(ghost.closeOK) + $index + 1 && len(writeOps) == $index + 1
 //@ loop 9 invariant -1 <= $index && $index < len(writeOps) && ghost.updates == old(ghost.updates) && ghost.updateOK == old(ghost.updateOK)
